@@ -139,6 +139,7 @@ type hworld struct {
 	pubAt    map[string][2]int64
 	held     []string // bodies still in the topic's own queue (topic paused / no channel)
 	tpaused  bool
+	ioLost   int // publishes whose write to the channel's disk queue was made to fail
 	tpausedAt int64
 	pubN     int
 	bytes    uint64
@@ -197,6 +198,9 @@ func (h *hworld) Menu() []string {
 		m = append(m, "pub", "hpub", "dpub")
 		if h.cfg.IOFault {
 			m = append(m, "hpubfail")
+			if !h.tpaused && len(h.chanNames()) == 1 {
+				m = append(m, "hpubchfail")
+			}
 		}
 		if h.pubN-h.preN+2 <= h.cfg.MaxMsgs {
 			m = append(m, "mpub", "hmpub")
@@ -380,6 +384,34 @@ func (h *hworld) Apply(ev string) {
 			h.ackPublish([]string{b}, 0, t0)
 		} else if armed {
 			h.bad("C10 C01 publish refused although nothing failed", "POST /pub answered %d and no disk write was attempted", code)
+		}
+	case "hpubchfail":
+		// the publish is accepted by the topic; the write to the (only) channel's disk queue
+		// fails. The publisher was answered OK before that, the failure is nsqd's to log - but
+		// what the channel then says it received must still add up (C13): a message it could
+		// not store is not one it holds, has finished or has discarded.
+		b := h.nextBody()
+		fired := false
+		vos.Fault = func(e vos.Effect) error {
+			if !fired && e.Op == "write" && strings.Contains(e.Path, "/"+hTopic+":") && strings.Contains(e.Path, ".diskqueue.") && !strings.Contains(e.Path, ".meta.") {
+				fired = true
+				return syscall.ENOSPC
+			}
+			return nil
+		}
+		code, body := w.Do("POST", "/pub?topic="+hTopic, []byte(b))
+		w.Quiesce()
+		vos.Fault = nil
+		if code != 200 {
+			h.bad("C01 C10 valid publish not acknowledged", "POST /pub answered %d %s", code, body)
+		} else {
+			h.ackPublish([]string{b}, 0, t0)
+			if fired {
+				for _, cn := range h.chanNames() {
+					delete(h.chans[cn].msgs, b) // never reached the channel: a failing disk, not a C01 matter
+				}
+				h.ioLost++
+			}
 		}
 	case "hmpub":
 		b1, b2 := h.nextBody(), h.nextBody()
